@@ -217,3 +217,76 @@ Definition diffs (l : list ucase) := bad_idx diff_case l.
 Definition mons (l : list ucase) :=
   mon_idx [mon_same; mon_idem; mon_shape; mon_query; mon_authority; mon_directory; mon_fragment; mon_scheme_rel;
            mon_state; mon_string_cache] l.
+
+(* ====================================================================================
+   urlredir: the same question through the pipeline.  A seed is preprocessed (real preprocess()),
+   answered with a 3xx whose Location header is the reference text, postprocessed (real
+   postprocessItem()) and preprocessed again: the URL of the request built for the redirect
+   target must be [normalize parent reference]. *)
+
+Inductive robs :=
+| ROk (t req : bytes)   (* the target was kept: URL.String() and the URL of its request *)
+| RRemoved              (* the target was removed from the tree (NormalizeURL refused it) *)
+| RPanic.
+
+Record rcase := RC {
+  r_ast : option (ref * ref);   (* generator's ASTs: the seed (absolute) and the Location reference *)
+  r_ptext : bytes;              (* seed text *)
+  r_loc : bytes;                (* Location header value *)
+  r_pcanon : option bytes;      (* the seed after preprocess(): String(); None = no request was built *)
+  r_out : robs;
+  r_direct : obs                (* NormalizeURL(Location text, parent) + String() called directly *)
+}.
+
+Definition robs_obs (o : robs) : obs :=
+  match o with ROk t _ => OOk t | RRemoved => OOther | RPanic => OPanic end.
+
+Definition rdiff_case (c : rcase) : bool :=
+  match r_ast c with
+  | None => false
+  | Some (p, r) =>
+    let text_ok := bytes_eqb (render_ref p) (r_ptext c) && bytes_eqb (render_ref r) (r_loc c) in
+    let ps := state_of (norm_state None p) in
+    negb text_ok ||
+    (in_grammar None p &&
+     (negb (obytes_eqb (option_map (fun s => render_url (finish s)) ps) (r_pcanon c))
+      || match ps with
+         | None => false
+         | Some s =>
+           in_grammar ps r &&
+           (* the parent's String() was called by preprocess() *)
+           match normalize (Some (finish s)) r, r_out c with
+           | Ok u, ROk t req => negb (bytes_eqb t (render_url u) && bytes_eqb req (render_url u))
+           | Ok _, _ => true
+           | _, RRemoved => false
+           | _, _ => true
+           end
+         end))
+  end.
+
+Definition to_ucase (c : rcase) : ucase :=
+  UC None (Some (r_ptext c)) (r_loc c) (r_pcanon c) [robs_obs (r_out c)] None None [] 0.
+
+(* 0: the pipeline's answer is NormalizeURL's answer for (Location text, parent) - nothing between
+   the header and the normaliser interprets the reference *)
+Definition rmon_direct (c : rcase) : bool :=
+  match r_pcanon c with
+  | None => true
+  | Some _ =>
+    match r_out c, r_direct c with
+    | ROk t _, OOk t' => bytes_eqb t t'
+    | RRemoved, (OScheme | OHost | OOther) => true
+    | _, _ => false
+    end
+  end.
+
+(* 1: shape, and the request goes to the canonical URL *)
+Definition rmon_shape (c : rcase) : bool :=
+  mon_shape (to_ucase c) && match r_out c with ROk t req => bytes_eqb t req | _ => true end.
+
+Definition rdiffs (l : list rcase) := bad_idx rdiff_case l.
+Definition rmons (l : list rcase) :=
+  mon_idx [rmon_direct; rmon_shape;
+           (fun c => mon_authority (to_ucase c));
+           (fun c => mon_directory (to_ucase c));
+           (fun c => mon_scheme_rel (to_ucase c))] l.
